@@ -507,7 +507,14 @@ func (x *lruCtx) checkEviction(t *Trace, name string, fn *ssa.Function) bool {
 		}
 		el := e.Args[1]
 		if elem != nil && el.Key() == elem.Key() {
-			continue // Delete of the looked-up element
+			// Delete of the looked-up element: the caller asked for it, it is not an eviction
+			for j, y := range t.Events {
+				if y.Kind == EvStore && y.Addr.isFieldAddrOf(x.evict) && y.Addr.Args[0].root().Kind != KAlloc {
+					c.violated("C04.eviction", name, y.Pos, "removing the entry the caller named (Delete) is counted as an eviction: Evictions no longer is the number of entries displaced by the capacity bound", c.witness(t, j)...)
+					return false
+				}
+			}
+			continue
 		}
 		// victim must be Back(), chosen under size > capacity on current values
 		isBack := false
